@@ -275,7 +275,7 @@ theorem c04_cargo_skip_list : Generated.skipKeys = ["path", "workspace", "regist
     text is one of the dependency tables -/
 theorem c04_cargo_only_tables (content : Text) (tree : Node) (p : PkgInfo) (h : p ∈ cargoToml content tree) :
     ∃ table name pair, table ∈ tree.children ∧ table.kind = "table" ∧ tableName content table = some name ∧
-      strIn Generated.dependencyTables name = true ∧ pair ∈ table.children ∧ pair.kind = "pair" ∧ cargoPair content pair = some p := by
+      strIn Generated.dependencyTables (cargoSection name) = true ∧ pair ∈ table.children ∧ pair.kind = "pair" ∧ cargoPair content pair = some p := by
   unfold cargoToml at h
   simp only [List.mem_flatMap, List.mem_filter] at h
   obtain ⟨table, ⟨ht, hk⟩, hp⟩ := h
@@ -284,11 +284,11 @@ theorem c04_cargo_only_tables (content : Text) (tree : Node) (p : PkgInfo) (h : 
   | none => simp [hn] at hp
   | some name =>
     simp only [hn] at hp
-    by_cases hin : strIn Generated.dependencyTables name = true
+    by_cases hin : strIn Generated.dependencyTables (cargoSection name) = true
     · simp only [hin, Bool.not_true, Bool.false_eq_true, if_false, List.mem_filterMap, List.mem_filter] at hp
       obtain ⟨pair, ⟨hpm, hpk⟩, hpp⟩ := hp
       exact ⟨table, name, pair, ht, by simpa using hk, hn, hin, hpm, by simpa using hpk, hpp⟩
-    · have : strIn Generated.dependencyTables name = false := by simpa using hin
+    · have : strIn Generated.dependencyTables (cargoSection name) = false := by simpa using hin
       simp [this] at hp
 
 theorem c04_cargo_tables : Generated.dependencyTables = ["dependencies", "dev-dependencies", "build-dependencies", "workspace.dependencies"] := rfl
@@ -297,11 +297,17 @@ theorem c04_cargo_tables : Generated.dependencyTables = ["dependencies", "dev-de
 theorem c04_toml_both_quotes : unquoteToml "'1.0'".toList = "1.0".toList ∧ unquoteToml "\"1.0\"".toList = "1.0".toList := by
   constructor <;> decide
 
-/-- **deviation (F-C04-7, F-C04-8)**: target-specific tables and `[dependencies.<name>]` sub-tables are not dependency tables -/
-theorem c04_deviation_cargo_tables :
-    strIn Generated.dependencyTables "target.'cfg(unix)'.dependencies".toList = false ∧
-    strIn Generated.dependencyTables "dependencies.serde".toList = false := by
-  constructor <;> decide
+/-- target-specific tables are dependency tables (F-C04-7, fixed); other tables under `target.` are not -/
+theorem c04_cargo_target_tables :
+    strIn Generated.dependencyTables (cargoSection "target.'cfg(unix)'.dependencies".toList) = true ∧
+    strIn Generated.dependencyTables (cargoSection "target.x86_64-pc-windows-gnu.dev-dependencies".toList) = true ∧
+    strIn Generated.dependencyTables (cargoSection "target.'cfg(unix)'.features".toList) = false ∧
+    strIn Generated.dependencyTables (cargoSection "workspace.dependencies".toList) = true := by
+  refine ⟨?_, ?_, ?_, ?_⟩ <;> decide
+
+/-- **deviation (F-C04-8)**: `[dependencies.<name>]` sub-tables are not dependency tables -/
+theorem c04_deviation_cargo_subtables :
+    strIn Generated.dependencyTables (cargoSection "dependencies.serde".toList) = false := by decide
 
 /-! ### go.mod -/
 
